@@ -252,9 +252,11 @@ def wl(l):
 def check_case(name, recipes, res, lines, expect, problems, seed=0):
     """run one malformation case; queue the model query; apply the property oracle"""
     vals, descs = build_inputs(recipes, seed)
-    run = Run(name, None, vals)
+    run = Run(name, {"running_window_step_length": 31} if name == "ISIMIP" else None, vals)  # (ISIMIP's default step 1 is only slower)
     case = {"debiaser": name, "recipes": dict(zip(ARGS, recipes)), "data_seed": seed}
-    res.count((name,) + tuple(recipes), any(r != "ok" for r in recipes), sample={**case, "descriptors": [desc_str(d) for d in descs]})
+    nontrivial = any(r != "ok" for r in recipes)
+    res.count((name,) + tuple(recipes), nontrivial,
+              sample={**case, "descriptors": [desc_str(d) for d in descs]} if nontrivial and len(res.distinct) % 97 == 3 else None)
     ncalls = len(run.loc_calls)
     # ---- what the real code did, in the model's vocabulary
     if run.exc is not None and ncalls == 0:
@@ -363,7 +365,7 @@ def check_time_case(name, cfg, deltas, res, lines, expect, problems, omit=None, 
     rw = int(cfg.get("running_window_mode", False))
     yr = int(cfg.get("running_window_mode_over_years_of_cm_future", False))
     case = {"debiaser": name, "cfg": cfg, "series_lengths": [n[a] for a in ARGS], "time_lengths": tl, "omitted": omit}
-    res.count(("time", name, rw, yr) + tuple(deltas) + (omit, nfut), any(deltas), sample=case)
+    res.count(("time", name, rw, yr) + tuple(deltas) + (omit, nfut), any(deltas), sample=case if any(deltas) and len(res.distinct) % 89 == 5 else None)
     actual = "ok" if run.exc is None else "error " + type(run.exc).__name__
     lines.append(f"time {name} {rw} {yr} {n['obs']} {n['cm_hist']} {n['cm_future']} {tl[0]} {tl[1]} {tl[2]}")
     expect.append(("time", case, actual))
@@ -414,7 +416,7 @@ def run(tier, res, force_search=False):
                 rec[pos] = r
                 check_case(name, rec, res, lines, expect, problems)
     # ---- pairs / triples (ordering of the checks only matters here)
-    n_multi = 120 if tier == "quick" else 1500
+    n_multi = 400 if tier == "quick" else 3000
     if force_search or not lean_ok:
         n_multi *= 3
     names = list(RECIPES)
